@@ -5,7 +5,17 @@
 use crate::{prng::*, Args, Out};
 use shopify_function_provider as provider;
 
-pub fn msg_bytes(len: usize, start: u64) -> Vec<u8> { (0..len as u64).map(|k| ((start + k) % 127) as u8 + 1).collect() }
+/// Message content: ASCII bytes carrying a running counter, or (start >= 1000) valid multi-byte UTF-8 text of exactly
+/// `len` bytes: `len % k` ASCII bytes followed by a repeated k-byte character (k = 2, 3, 4).
+pub fn msg_bytes(len: usize, start: u64) -> Vec<u8> {
+    if start >= 1000 {
+        let ch: &[u8] = match start - 1000 { 0 => "\u{e9}".as_bytes(), 1 => "\u{20ac}".as_bytes(), _ => "\u{1f600}".as_bytes() };
+        let mut v = vec![b'x'; len % ch.len()];
+        while v.len() < len { v.extend_from_slice(ch); }
+        return v;
+    }
+    (0..len as u64).map(|k| ((start + k) % 127) as u8 + 1).collect()
+}
 
 /// Host view computed from the hook with bounds checks (a bad pointer is reported, not followed).
 fn view() -> String {
@@ -143,7 +153,8 @@ pub fn run(a: &Args, out: &mut Out) {
                 _ => r.below(3 * cap as u64) as usize,
             };
             *len_hist.entry(if len == 0 { "0" } else if len < cap { "1..cap-1" } else if len == cap { "cap" } else if len <= 2 * cap { "cap+1..2cap" } else { ">2cap" }).or_insert(0) += 1;
-            ops.push(Op::Msg(len, counter));
+            // through the API also multi-byte UTF-8 text (a cut must never depend on character boundaries)
+            ops.push(Op::Msg(len, if api_mode && r.chance(35) { 1000 + r.below(3) } else { counter }));
             counter = (counter + len as u64) % 127;
             total += len;
             key.push_str(&format!("{},", len));
